@@ -307,7 +307,7 @@ Lemma flatten_on_file_inv : strict = true ->
 Proof.
   intros Hs. eapply hoare_bind; [apply file_create_inv|]. intros ?.
   apply hst_of. intros f Wf. apply hst_get.
-  eapply hst_ro_end; [apply (file_flatten_safe strict f Hs Wf)|exact Wf|]. intros g Wg. split; assumption.
+  eapply hst_ro_end; [apply (file_flatten_safe strict f Wf)|exact Wf|]. intros g Wg. split; assumption.
 Qed.
 
 Lemma body_file_inv b : body_ok strict b = true ->
